@@ -609,7 +609,7 @@ func (h *histT) judgeReply(qtok string, recs []recTok, freshCalls map[string]int
 		// alias piece that precedes it in the chain.  VERIF_C04_STRICT=1
 		// judges it by its origin alone (see notes/C04.md, candidate finding).
 		cands := []*orec{o}
-		if r.ns && !strictCopies {
+		if r.ns {
 			for _, p := range order {
 				if p == r.tok {
 					break
@@ -625,6 +625,13 @@ func (h *histT) judgeReply(qtok string, recs []recTok, freshCalls map[string]int
 		for _, c := range cands[1:] {
 			if c.admitV+c.life > best.admitV+best.life {
 				best = c
+			}
+		}
+		if strictCopies && best != o {
+			// judged by the origin alone: a copy that only its holder justifies
+			if oe := o.admitV + o.life; h.V >= oe || r.ttl > oe-h.V-1 {
+				note(fail("c/hit/authority-copy-outlives-origin/"+o.lim, "piece=%s shown=%d at=%ds origin admitted=%ds lifetime=%ds", r.tok, r.ttl, h.V, o.admitV, o.life))
+				continue
 			}
 		}
 		end := best.admitV + best.life
